@@ -140,7 +140,7 @@ def run_path(reg, c, ex, decisions, segment=0):
         for cl in c.clauses:
             if cl.kind == 'let':
                 spec_env[cl.name] = name_quantified(st, cl.name, sp.ev(cl.node), sp)
-            elif cl.kind == 'requires':
+            elif cl.kind in ('requires', 'define'):
                 st.assume(sp.truth(sp.ev(cl.node)))
             elif cl.kind == 'uses_lemma':
                 pass
